@@ -15,6 +15,8 @@ func init() {
 			helperNextReaderRules(c, "C04")
 			// the payload the reader delivers is unmasked by CipherReader
 			c02Streams(c)
+			// the unmasking itself, for every length regime the code distinguishes
+			c02Cipher(c)
 			// the reader's own header decoder and the header rules it applies
 			c01Decoder(c, "C04.decode-table", c.method("C04.decode-table", wsutil, "Reader", "readHeader"), true)
 			c03CheckHeader(c)
